@@ -9,6 +9,7 @@ import io
 import json
 
 from spyne import Application, ServiceBase, rpc, Fault
+from spyne.context import MethodContext
 from spyne.evmgr import EventManager
 from spyne.model.primitive import Integer, Unicode
 from spyne.protocol.http import HttpRpc
@@ -268,6 +269,47 @@ class Harness(object):
             e['CONTENT_LENGTH'] = ''
         e.update(extra)
         return e
+
+    def run_serverbase(self, kind):
+        """The same request through a plain ServerBase, driven the way the message transports of the package drive it
+        (generate_contexts -> get_in_object -> get_out_object -> get_out_string -> close).  Returns an Outcome: 'return'
+        with the response bytes, or the first exception that escaped one of the real calls.  Not for HttpRpc."""
+        from spyne.server import ServerBase
+        from pyvc.oblig import Outcome
+        c = self.c
+        req = requests_for(self.family)[kind]
+        body = req[3]
+        server = ServerBase(self.app)
+        self.server = server
+        initial = MethodContext(server, MethodContext.SERVER)
+        initial.in_string = [body]
+        o = c.run(server.generate_contexts, initial, 'utf8')
+        c.emit('generate_contexts_done', o.kind)
+        if not o.returned:
+            return o
+        p_ctx = o.value[0]
+        self.p_ctx = p_ctx
+        if p_ctx.in_error is None:
+            o = c.run(server.get_in_object, p_ctx)
+            if not o.returned:
+                return o
+        if p_ctx.in_error is None:
+            o = c.run(server.get_out_object, p_ctx)
+            if not o.returned:
+                return o
+        o = c.run(server.get_out_string, p_ctx)
+        if not o.returned:
+            return o
+        chunks = []
+        o = c.run(lambda: chunks.extend(list(p_ctx.out_string)))
+        if not o.returned:
+            return o
+        for x in chunks:
+            c.emit('chunk', x)
+        o = c.run(p_ctx.close)
+        if not o.returned:
+            return o
+        return Outcome('return', value=b''.join(x for x in chunks if isinstance(x, bytes)))
 
     def run_wsgi(self, kind, abort_after=None):
         """One request; returns the Outcome of the WSGI callable.  Trace: start_response, chunk, ..."""
